@@ -56,10 +56,34 @@ class GraphWorld:
         return self.cw.new("Solver")
 
     def graph(self, n: int, edges: List[Tuple[int, int]]) -> Obj:
+        """the Graph is *looked at* before its last edge is added (every property, cached property and argument-less public method
+        of the class is evaluated once): a value derived from the edge list and kept on the object would be stale afterwards"""
         g = self.cw.new("Graph", n)
-        for a, b in edges:
+        for k, (a, b) in enumerate(edges):
+            if k == len(edges) - 1:
+                self.observe(g)
             self.cw.method(g, "add_edge")(a, b)
         return g
+
+    def observe(self, g: Obj) -> None:
+        import ast as _ast
+
+        from ..core.loader import dotted
+
+        node = self.cw.classes.get("Graph")
+        if node is None:
+            return
+        for st in node.body:
+            if not isinstance(st, _ast.FunctionDef):
+                continue
+            decos = {(dotted(d) or "").split(".")[-1] for d in st.decorator_list}
+            try:
+                if decos & {"property", "cached_property"}:
+                    fde._getattr(g, st.name)
+                elif not decos and len(st.args.args) == 1 and not st.args.kwonlyargs and (not st.name.startswith("_") or st.name in ("__len__", "__iter__")):
+                    self.cw.method(g, st.name)()
+            except (Undecided, Raised, IndexOutOfRange):
+                pass
 
     def call(self, name: str, *args: Any, **kwargs: Any) -> Any:
         self.cw.ev.steps = 0
